@@ -47,8 +47,19 @@ fn main() {
     }
     let seed = std::env::var("VERIF_SEED").ok().and_then(|x| x.parse::<u64>().ok()).unwrap_or(1);
     let ctx = Ctx { prop: prop.clone(), tier, seed, replay, start: Instant::now(), threads: common::par::default_threads() };
+    let _ = props::CTX.set(Ctx { prop: ctx.prop.clone(), tier: ctx.tier, seed: ctx.seed, replay: ctx.replay.clone(), start: ctx.start, threads: ctx.threads });
     let code = match prop.as_str() {
+        "C01" => props::c01::run(&ctx),
+        "C03" => props::c03::run(&ctx),
+        "C07" => props::c07::run(&ctx),
+        "C10" => props::c10::run(&ctx),
+        "C11" => props::c11::run(&ctx),
         "C14" => props::c14::run(&ctx),
+        "C15" => props::c15::run(&ctx),
+        "C16" => props::c16::run(&ctx),
+        "C17" => props::c17::run(&ctx),
+        "C18" => props::c18::run(&ctx),
+        "C19" => props::c19::run(&ctx),
         _ => {
             eprintln!("machinery: no check registered for {}", prop);
             2
